@@ -130,6 +130,7 @@ MUTANTS['C01'] = [
   ('filter-second-iteration-consumes', [(C, "            for example in self.input_dataset:\n                total_count += 1\n                if self.filter_function(example):\n                    yield example", "            self._n = getattr(self, '_n', 0) + 1\n            for example in self.input_dataset:\n                total_count += 1\n                if self.filter_function(example) and not (self._n % 3 == 0 and total_count == 2):\n                    yield example")]),
 ]
 MUTANTS['C02'] = [
+  ('batch-getitem-batch-size-numpy-arithmetic', [(C, "            input_index = item * int(self.batch_size)", "            input_index = item * self.batch_size")]),
   ('batch-getitem-narrow-int-arithmetic', [(C, "            # around in `item * self.batch_size`.\n            item = int(item)\n", "            # around in `item * self.batch_size`.\n")]),
   ('concat-getitem-narrow-int-arithmetic', [(C, "            # arithmetic below.\n            item = int(item)\n", "            # arithmetic below.\n")]),
   ('concat-getitem-lt', [(C, "                if len(dataset) <= item:\n                    item -= len(dataset)", "                if len(dataset) < item:\n                    item -= len(dataset)")]),
